@@ -3,7 +3,8 @@ Mirror model of `/repo/src/adj.rs` (`adj::List<E, Ix>`), core Lean only.
 
 `suc : Vec<Vec<WSuc>>` is a list of rows of `(successor, weight)`; an `EdgeIndex { from, successor_index }`
 is the pair `(from, successor_index)`.  `Ix::new(i)` = `mkIx modulus i`.  `none` = the call panics
-(`self.suc[a.index()]` out of bounds, or the explicit `panic!` for a target beyond the list).
+(`self.suc[a.index()]` out of bounds, the explicit `panic!` for a target beyond the list, or the capacity
+`assert!` of `add_node*`: `fitsIx`, `nextNodeIndex`).
 -/
 namespace PetgraphModel.AdjM
 
@@ -28,13 +29,27 @@ def State.edgeCount (s : State) : Nat := (s.suc.map List.length).sum
 /-- `clear()` -/
 def clear (s : State) : State := { s with suc := [] }
 
-/-- `add_node()` / `add_node_with_capacity(_)` / `Build::add_node(())` -/
-def addNode (s : State) : State × Nat :=
-  ({ s with suc := s.suc ++ [[]] }, mkIx s.modulus s.suc.length)
+/-- `i <= <Ix as IndexType>::max().index()`: the index `i` fits the index type (`modulus = 0` is `usize`:
+every index fits) -/
+def fitsIx (modulus i : Nat) : Bool := modulus == 0 || decide (i < modulus)
 
-/-- `add_node_from_edges(iter)` -/
-def addNodeFromEdges (s : State) (es : Row) : State × Nat :=
-  ({ s with suc := s.suc ++ [es] }, mkIx s.modulus s.suc.length)
+/-- `next_node_index()` (commit 8cab180, repair of finding D31): the index the next node gets; `none` = the
+`assert!` fails because the list already holds as many nodes as the index type has values (256 for `u8`).
+Every `add_node*` calls it BEFORE the first write, so a panicking call leaves the list unchanged. -/
+def nextNodeIndex (s : State) : Option Nat :=
+  if fitsIx s.modulus s.suc.length then some s.suc.length else none
+
+/-- `add_node()` / `add_node_with_capacity(_)` / `Build::add_node(())`; `none` = the capacity panic -/
+def addNode (s : State) : Option (State × Nat) :=
+  match nextNodeIndex s with
+  | none => none
+  | some i => some ({ s with suc := s.suc ++ [[]] }, mkIx s.modulus i)
+
+/-- `add_node_from_edges(iter)`; `none` = the capacity panic (raised before the iterator is consumed) -/
+def addNodeFromEdges (s : State) (es : Row) : Option (State × Nat) :=
+  match nextNodeIndex s with
+  | none => none
+  | some i => some ({ s with suc := s.suc ++ [es] }, mkIx s.modulus i)
 
 /-- `add_edge(a, b, w)`: explicit panic for `b` beyond the list, index panic for `a` -/
 def addEdge (s : State) (a b : Nat) (w : Int) : Option (State × EIx) :=
@@ -151,8 +166,10 @@ inductive Out where
   deriving Repr, DecidableEq
 
 def step (s : State) : Op → State × Out
-  | .addNode => let (s', i) := addNode s; (s', .ix i)
-  | .addNodeFromEdges es => let (s', i) := addNodeFromEdges s es; (s', .ix i)
+  | .addNode => match addNode s with
+    | some (s', i) => (s', .ix i) | none => (s, .panic)
+  | .addNodeFromEdges es => match addNodeFromEdges s es with
+    | some (s', i) => (s', .ix i) | none => (s, .panic)
   | .addEdge a b w => match addEdge s a b w with
     | some (s', e) => (s', .eix e) | none => (s, .panic)
   | .updateEdge a b w => match updateEdge s a b w with
